@@ -5,6 +5,7 @@ mod htmlgen;
 mod prng;
 mod rrule;
 mod w1;
+mod w1a;
 mod w2;
 mod w2d;
 mod w2t;
@@ -30,6 +31,7 @@ macro_rules! with_world {
             "W1" => $func::<w1::W1>($($arg),*),
             "W5" => $func::<w5::W5>($($arg),*),
             "W4" => $func::<w4::W4>($($arg),*),
+            "W1A" => $func::<w1a::W1A>($($arg),*),
             other => {
                 eprintln!("unknown world {other}");
                 std::process::exit(2);
@@ -166,6 +168,15 @@ fn plan(prop: &str, tier: Tier) -> Option<Plan> {
                 "the contract for returned char* and HeaderMap nodes is release by the caller with free(): the simulated C caller frees them through the recorded layout",
                 "trusted-proxy objects have no drop function by design and are excluded from the balance; a leak counts only if two measured passes after a warm-up pass both leak",
                 "AddressSanitizer is not used: the auditing allocator checks layouts and unknown pointers; use-after-free inside the library without a later bad free is not observed",
+            ],
+        },
+        "C19" => Plan {
+            level: "exploration",
+            batches: vec![b("W1A", "analyses", 4000, 100000)],
+            assumptions: vec![
+                "outputs are compared as canonicalised JSON: arrays that come out of hash iteration (match traces, trace children, routes) are sorted, everything else keeps its order",
+                "at most 12 rules with examples per call, so the 'first ten' maps are not truncated differently by hash order",
+                "the live pipeline is the proxy sequence of W5: request-time status, then response-time status / headers / body / log with the backend code (example's code or 200)",
             ],
         },
         _ => return None,
